@@ -1221,7 +1221,8 @@ def mpf_cosh_sinh(x, prec, rnd=round_fast, tanh=0):
         wp += (-mag)
     # Does exp(-2*x) vanish?
     if mag > 10:
-        if 3*(1<<(mag-1)) > wp:
+        # |x| >= 2**(mag-1), so exp(-2|x|) <= 2**(-2.885*2**(mag-1)) < 2**(-wp)
+        if (1<<mag) > wp:
             # XXX: rounding
             if tanh:
                 return mpf_perturb([fone,fnone][sign], 1-sign, prec, rnd)
